@@ -80,6 +80,7 @@ type Policy struct {
 	PRouterErr float64
 	Script     []int // class "script": choice at each flush that has pending store SQEs
 	scriptPos  int
+	Widths     []int // class "script": number of pending store SQEs at each choice point (recorded)
 	// Intercept, when set, can force an action for one SQE: "" none, "pre", "post", "defer", "run"
 	Intercept func(s *Sim, p *pendSQE) string
 }
@@ -571,6 +572,7 @@ func (a *advAIO) Flush(t int64) {
 				c = pol.Script[pol.scriptPos] % len(storeP)
 			}
 			pol.scriptPos++
+			pol.Widths = append(pol.Widths, len(storeP))
 			for i, p := range storeP {
 				if i == c {
 					run = append(run, p)
